@@ -4,8 +4,15 @@
 //! which plays the agent side (reads the raw `LaneRequest` frames when the script says so). Remotes are attached over
 //! byte channels; every command body is unique.
 //!
-//! ops:  new <nlanes> [<lane-input-capacity>] | send <r> <l> cmd <b> | send <r> <l> link|sync|unlink | take <l> <n>
-//!       | drain        (a leading `!` on `send` = do not let the runtime settle: the next request races with it)
+//! The runtime is started with reporting enabled (`NodeReporting`): every lane's `UplinkReportReader` and the aggregate
+//! reader are snapshotted when the script says `snap` (C20: command counters).
+//!
+//! ops:  new <nlanes> [<lane-input-capacity> [<k>]] | send <r> <l> cmd <b> | send <r> <l> link|sync|unlink
+//!       | take <l> <n> | drain | snap
+//!       (a leading `!` on `send` = do not let the runtime settle: the next request races with it)
+//!       the last <k> lanes are MAP lanes: a body < 900000 is sent to them as `@update(key:b) b`, a body >= 900000 as the
+//!       plain number (not a map operation: the lane's sender rejects it); value-like lanes get the plain number.
+//! out:  snap <command count of lane 0>,<lane 1>,… agg=<aggregate command count>
 //! out:  ok | got <requests read from the lane: cmd:<b> / sync:<r>> | (drain) all <l>:<request>,…
 use std::collections::{BTreeMap, HashMap};
 use std::num::NonZeroUsize;
@@ -16,14 +23,15 @@ use bytes::Bytes;
 use futures::future::BoxFuture;
 use futures::{FutureExt, SinkExt, StreamExt};
 use svh::{parse_args, Mode, Rng, Trace};
-use swimos_agent_protocol::encoding::lane::RawValueLaneRequestDecoder;
-use swimos_agent_protocol::LaneRequest;
+use swimos_agent_protocol::encoding::lane::{RawMapLaneRequestDecoder, RawValueLaneRequestDecoder};
+use swimos_agent_protocol::{LaneRequest, MapMessage};
 use swimos_api::address::RelativeAddress;
 use swimos_api::agent::{Agent, AgentConfig, AgentContext, AgentInitResult, LaneConfig, WarpLaneKind};
 use swimos_messages::protocol::{RawRequestMessageEncoder, RequestMessage};
+use swimos_runtime::agent::reporting::{UplinkReportReader, UplinkReporter};
 use swimos_runtime::agent::{
     AgentAttachmentRequest, AgentRouteChannels, AgentRouteDescriptor, AgentRouteTask, AgentRuntimeConfig,
-    CombinedAgentConfig,
+    CombinedAgentConfig, NodeReporting, UplinkReporterRegistration,
 };
 use swimos_utilities::byte_channel::{byte_channel, ByteReader, ByteWriter};
 use swimos_utilities::routing::RouteUri;
@@ -37,6 +45,7 @@ type LaneIo = Arc<Mutex<Vec<(ByteWriter, ByteReader)>>>;
 /// An agent that registers `n` command lanes (`c0 … c<n-1>`), gives their channels to the harness and then idles.
 struct LaneHolder {
     n: usize,
+    maps: usize,
     cap: usize,
     io: LaneIo,
 }
@@ -50,6 +59,7 @@ impl Agent for LaneHolder {
         context: Box<dyn AgentContext + Send>,
     ) -> BoxFuture<'static, AgentInitResult> {
         let n = self.n;
+        let maps = self.maps;
         let cap = self.cap;
         let io = self.io.clone();
         async move {
@@ -60,7 +70,11 @@ impl Agent for LaneHolder {
                     transient: true,
                 };
                 let chans = context
-                    .add_lane(&format!("c{}", i), WarpLaneKind::Command, cfg)
+                    .add_lane(
+                        &format!("c{}", i),
+                        if i + maps >= n { WarpLaneKind::Map } else { WarpLaneKind::Command },
+                        cfg,
+                    )
                     .await
                     .expect("lane registration failed");
                 io.lock().unwrap().push(chans);
@@ -84,10 +98,54 @@ struct RemoteCtx {
     _completion: promise::Receiver<swimos_runtime::agent::DisconnectionReason>,
 }
 
+enum LaneRx {
+    Value(FramedRead<ByteReader, RawValueLaneRequestDecoder>),
+    Map(FramedRead<ByteReader, RawMapLaneRequestDecoder>),
+}
+
+/// One request as text, or `None` at the end of the stream.
+enum Got {
+    Req(String),
+    Closed,
+}
+
+impl LaneRx {
+    async fn next(&mut self) -> Got {
+        match self {
+            LaneRx::Value(rx) => match rx.next().await {
+                Some(Ok(LaneRequest::Command(b))) => Got::Req(format!("cmd:{}", String::from_utf8_lossy(b.as_ref()))),
+                Some(Ok(LaneRequest::Sync(id))) => Got::Req(format!("sync:{}", id.as_u128() - 0x2000)),
+                Some(Ok(LaneRequest::InitComplete)) => Got::Req("init-complete".into()),
+                Some(Err(_)) => Got::Req("decode-error".into()),
+                None => Got::Closed,
+            },
+            LaneRx::Map(rx) => match rx.next().await {
+                Some(Ok(LaneRequest::Command(MapMessage::Update { key, value }))) => {
+                    let k = String::from_utf8_lossy(key.as_ref()).to_string();
+                    let v = String::from_utf8_lossy(value.as_ref()).to_string();
+                    if k == v {
+                        Got::Req(format!("cmd:{}", k))
+                    } else {
+                        Got::Req(format!("cmd:{}!{}", k, v))
+                    }
+                }
+                Some(Ok(LaneRequest::Command(_))) => Got::Req("cmd:other-map-message".into()),
+                Some(Ok(LaneRequest::Sync(id))) => Got::Req(format!("sync:{}", id.as_u128() - 0x2000)),
+                Some(Ok(LaneRequest::InitComplete)) => Got::Req("init-complete".into()),
+                Some(Err(_)) => Got::Req("decode-error".into()),
+                None => Got::Closed,
+            },
+        }
+    }
+}
+
 struct Rig {
     att_tx: mpsc::Sender<AgentAttachmentRequest>,
     remotes: BTreeMap<u64, RemoteCtx>,
-    lanes: Vec<(ByteWriter, FramedRead<ByteReader, RawValueLaneRequestDecoder>)>,
+    lanes: Vec<(ByteWriter, LaneRx)>,
+    maps: usize,
+    readers: Vec<Option<UplinkReportReader>>,
+    agg_reader: UplinkReportReader,
 }
 
 impl Rig {
@@ -126,16 +184,14 @@ impl Rig {
         if let Some((_, rx)) = self.lanes.get_mut(l) {
             for _ in 0..max {
                 match tokio::time::timeout(Duration::from_millis(2), rx.next()).await {
-                    Ok(Some(Ok(LaneRequest::Command(b)))) => {
-                        out.push(format!("cmd:{}", String::from_utf8_lossy(b.as_ref())))
+                    Ok(Got::Req(q)) => {
+                        let stop = q == "decode-error";
+                        out.push(q);
+                        if stop {
+                            break;
+                        }
                     }
-                    Ok(Some(Ok(LaneRequest::Sync(id)))) => out.push(format!("sync:{}", id.as_u128() - 0x2000)),
-                    Ok(Some(Ok(LaneRequest::InitComplete))) => out.push("init-complete".into()),
-                    Ok(Some(Err(_))) => {
-                        out.push("decode-error".into());
-                        break;
-                    }
-                    Ok(None) => {
+                    Ok(Got::Closed) => {
                         out.push("closed".into());
                         break;
                     }
@@ -156,13 +212,19 @@ impl Rig {
             ["send", r, l, rest @ ..] => {
                 let r: u64 = r.parse().unwrap();
                 let lane = format!("c{}", l);
+                let nl = self.lanes.len();
+                let is_map = l.parse::<usize>().map(|l| l < nl && l + self.maps >= nl).unwrap_or(false);
                 let ctx = match self.remote(r).await {
                     Some(c) => c,
                     None => return "agent-gone".into(),
                 };
                 let path = RelativeAddress::new("/node", lane.as_str());
                 let msg: RequestMessage<&str, Bytes> = match rest {
-                    ["cmd", b] => RequestMessage::command(ctx.id, path, Bytes::from(b.as_bytes().to_vec())),
+                    ["cmd", b] => {
+                        let valid = b.parse::<u64>().map(|n| n < 900000).unwrap_or(false);
+                        let body = if is_map && valid { format!("@update(key:{}) {}", b, b) } else { b.to_string() };
+                        RequestMessage::command(ctx.id, path, Bytes::from(body.into_bytes()))
+                    }
                     ["link"] => RequestMessage::link(ctx.id, path),
                     ["sync"] => RequestMessage::sync(ctx.id, path),
                     ["unlink"] => RequestMessage::unlink(ctx.id, path),
@@ -208,6 +270,21 @@ impl Rig {
                     format!("all {}", all.join(","))
                 }
             }
+            ["snap"] => {
+                let counts: Vec<String> = self
+                    .readers
+                    .iter()
+                    .map(|r| match r.as_ref().and_then(|r| r.snapshot()) {
+                        Some(s) => s.command_count.to_string(),
+                        None => "none".to_string(),
+                    })
+                    .collect();
+                let agg = match self.agg_reader.snapshot() {
+                    Some(s) => s.command_count.to_string(),
+                    None => "none".to_string(),
+                };
+                format!("snap {} agg={}", if counts.is_empty() { "-".to_string() } else { counts.join(",") }, agg)
+            }
             _ => "bad-op".into(),
         }
     }
@@ -216,16 +293,25 @@ impl Rig {
 async fn run_case_async(ops: Vec<String>) -> Vec<(String, String)> {
     let mut results = vec![];
     let first: Vec<&str> = ops.first().map(|s| s.split_whitespace().collect()).unwrap_or_default();
-    let (n, cap) = match first.as_slice() {
-        ["new", n] => (n.parse::<usize>().unwrap_or(1), 1usize << 16),
-        ["new", n, cap] => (n.parse::<usize>().unwrap_or(1), cap.parse::<usize>().unwrap_or(1 << 16)),
+    let (n, cap, maps) = match first.as_slice() {
+        ["new", n] => (n.parse::<usize>().unwrap_or(1), 1usize << 16, 0usize),
+        ["new", n, cap] => (n.parse::<usize>().unwrap_or(1), cap.parse::<usize>().unwrap_or(1 << 16), 0),
+        ["new", n, cap, k] => (
+            n.parse::<usize>().unwrap_or(1),
+            cap.parse::<usize>().unwrap_or(1 << 16),
+            k.parse::<usize>().unwrap_or(0),
+        ),
         _ => {
             return ops.iter().map(|o| (o.clone(), "bad-op".to_string())).collect();
         }
     };
     results.push((ops[0].clone(), "ok".to_string()));
     let io: LaneIo = Arc::new(Mutex::new(vec![]));
-    let agent = LaneHolder { n, cap, io: io.clone() };
+    let agent = LaneHolder { n, maps, cap, io: io.clone() };
+    let aggregate = UplinkReporter::default();
+    let agg_reader = aggregate.reader();
+    let (reg_tx, mut reg_rx) = mpsc::channel::<UplinkReporterRegistration>(64);
+    let reporting = NodeReporting::new(Uuid::from_u128(1), aggregate, reg_tx);
     let (att_tx, att_rx) = mpsc::channel(16);
     let (_http_tx, http_rx) = mpsc::channel(16);
     let (link_tx, mut link_rx) = mpsc::channel(16);
@@ -250,7 +336,7 @@ async fn run_case_async(ops: Vec<String>) -> Vec<(String, String)> {
         AgentRouteChannels::new(att_rx, http_rx, link_tx),
         stop_rx,
         config,
-        None,
+        Some(reporting),
     );
     let failed: Arc<Mutex<Option<String>>> = Arc::new(Mutex::new(None));
     let failed2 = failed.clone();
@@ -273,9 +359,24 @@ async fn run_case_async(ops: Vec<String>) -> Vec<(String, String)> {
         }
         let lanes: Vec<_> = std::mem::take(&mut *io.lock().unwrap())
             .into_iter()
-            .map(|(tx, rx)| (tx, FramedRead::new(rx, RawValueLaneRequestDecoder::default())))
+            .enumerate()
+            .map(|(i, (tx, rx))| {
+                if i + maps >= n {
+                    (tx, LaneRx::Map(FramedRead::new(rx, RawMapLaneRequestDecoder::default())))
+                } else {
+                    (tx, LaneRx::Value(FramedRead::new(rx, RawValueLaneRequestDecoder::default())))
+                }
+            })
             .collect();
-        let mut rig = Rig { att_tx, remotes: BTreeMap::new(), lanes };
+        let mut readers: Vec<Option<UplinkReportReader>> = vec![None; n];
+        while let Ok(reg) = reg_rx.try_recv() {
+            if let Some(i) = reg.lane_name.as_str().strip_prefix('c').and_then(|x| x.parse::<usize>().ok()) {
+                if i < n {
+                    readers[i] = Some(reg.reader);
+                }
+            }
+        }
+        let mut rig = Rig { att_tx, remotes: BTreeMap::new(), lanes, maps, readers, agg_reader };
         let mut out = vec![];
         for op in ops.iter().skip(1) {
             let o = rig.exec(op).await;
@@ -321,11 +422,10 @@ fn run_case(t: &mut Trace, ops: &[String]) {
 /// `race = true`: bursts from several remotes without settling and small lane buffers (monitor only).
 fn gen_case(rng: &mut Rng, race: bool) -> Vec<String> {
     let nl = rng.range(1, 3);
-    let mut ops = if race {
-        vec![format!("new {} {}", nl, rng.pick(&[8usize, 24, 64, 1 << 16]))]
-    } else {
-        vec![format!("new {}", nl)]
-    };
+    // the last `maps` lanes are map lanes (their sender rejects bodies that are not map operations)
+    let maps = rng.below(nl + 1).min(2);
+    let cap = if race { *rng.pick(&[8usize, 24, 64, 1 << 16]) } else { 1 << 16 };
+    let mut ops = vec![format!("new {} {} {}", nl, cap, maps)];
     let nr = rng.range(1, 3);
     let len = rng.range(3, 40);
     let mut seq = 0u64;
@@ -335,20 +435,25 @@ fn gen_case(rng: &mut Rng, race: bool) -> Vec<String> {
         let l = if rng.chance(1, 12) { nl + rng.below(2) } else { rng.below(nl) };
         let c = rng.below(100);
         let bang = if race && rng.chance(2, 3) { "!" } else { "" };
-        if c < 62 {
+        if c < 58 {
             seq += 1;
-            ops.push(format!("{}send {} {} cmd {}", bang, r, l, r * 100000 + seq));
-        } else if c < 70 {
+            // one command in six has a body that is not a map operation
+            let body = if rng.chance(1, 6) { 900000 + r * 10000 + seq } else { r * 100000 + seq };
+            ops.push(format!("{}send {} {} cmd {}", bang, r, l, body));
+        } else if c < 66 {
             ops.push(format!("{}send {} {} sync", bang, r, l));
-        } else if c < 76 {
+        } else if c < 72 {
             ops.push(format!("{}send {} {} {}", bang, r, l, if rng.chance(1, 2) { "link" } else { "unlink" }));
-        } else if c < 96 {
+        } else if c < 88 {
             ops.push(format!("take {} {}", rng.below(nl), rng.range(1, 4)));
+        } else if c < 95 {
+            ops.push("snap".into());
         } else {
             ops.push("drain".into());
         }
     }
     ops.push("drain".into());
+    ops.push("snap".into());
     ops
 }
 
